@@ -155,6 +155,18 @@ def generate(inv, T):
         body = '\n'.join([load_arg('a', q, T, 0, 1), 'out[0] = std::pow(a, in[1]);'])
         impl = add(H.Wrapper(base, T, 2, T, 1, body))
         obs.append({'kind': 'mathfn', 'id': 'std::pow(%s, number) [%s]' % (q, CT[T]), 'impl': impl, 'fn': 'pow'})
+        # exponents of another arithmetic type: the overload must hand the exponent on unchanged (std::pow promotes)
+        for E, src in (('float', 'static_cast<float>(in[1])'), ('double', 'static_cast<double>(in[1])'), ('long double', 'static_cast<long double>(in[1])'),
+                       ('int', 'static_cast<int>(iin[0])'), ('long long', 'static_cast<long long>(iin[0])')):
+            if E == CT[T]:
+                continue
+            tag = E.replace(' ', '')
+            niin = 1 if E in ('int', 'long long') else 0
+            bi = '\n'.join([load_arg('a', q, T, 0, 1), 'const %s e = %s;' % (E, src), 'out[0] = std::pow(a, e);'])
+            br = '\n'.join([load_arg('a', q, T, 0, 1), 'const %s e = %s;' % (E, src), 'out[0] = static_cast<%s>(std::pow(a.Value(), e));' % CT[T]])
+            wi = add(H.Wrapper(base + '_' + tag, T, 2, T, 1, bi, n_iin=niin))
+            wr = add(H.Wrapper(base + '_' + tag + '_ref', T, 2, T, 1, br, n_iin=niin))
+            obs.append({'kind': 'powmix', 'id': 'std::pow(%s, %s) [%s]' % (q, E, CT[T]), 'impl': wi, 'ref': wr})
     return ws, obs
 
 
@@ -216,6 +228,13 @@ def one(ctx, T, d):
                 return
             ctx.bit_equal(o, r.out, spec, w, key=d['id'], replay=ctx.native_term_replay(w, spec))
             check_ub(ctx, d, r)
+        elif d['kind'] == 'powmix':
+            o = ctx.ob(d['id'], 'math-overload', 'BIT', '%s: identical to std::pow of the stored number with the exponent in its own type' % d['id'])
+            rr = ctx.result(d['ref'])
+            if r is None or r.error or rr is None or rr.error or r.out[0] is None or rr.out[0] is None:
+                o.reason = ctx.why_missing(d['impl'] if (r is None or r.error) else d['ref'])
+                return
+            ctx.bit_equal(o, r.out, rr.out, w, key=d['id'], replay=ctx.native_pair_replay(w, ctx.byname[d['ref']]))
         elif d['kind'] == 'alias':
             o = ctx.ob(d['id'], 'compound-assignment-aliased', 'BIT',
                        '%s: every component is combined with the ORIGINAL value of the aliased operand' % d['id'])
